@@ -3,7 +3,7 @@
 (* verdict of the reference de-serializers of Sdk.tla.                                                         *)
 EXTENDS SdkModels, Json, IOUtils
 Obs == JsonDeserialize(IOEnv.VERIF_OBS)
-VARIABLES i, verdict
+VARIABLES Rec, verdict
 ModelOf(o) == IF o.pa = 0 THEN FixedModels[o.mi] ELSE ParamModel(o.pa, o.pb)
 \* well-formedness of XML text is opaque here: a text that no XML parser takes must be rejected; junk after a complete
 \* root element is left open (a streaming reader need not look at it)
@@ -12,11 +12,11 @@ VerdictFor(o, m) ==
     IF o.fmt = "json" THEN JsonVerdict(m, o.doc, TCls(m.root))
     ELSE IF o.fmt = "xml" THEN XmlVerdict(m, o.doc, m.root)
     ELSE TextVerdict(o)
-Init == /\ i \in 1..Len(Obs)
-        /\ verdict = VerdictFor(Obs[i], ModelOf(Obs[i]))
-        /\ PrintT(<<"@@PRINT@@ verdict", i, verdict.verdict>>)
-Next == UNCHANGED <<i, verdict>>
-Rec == Obs[i]
+\* (the record itself is the state, see SdkTrace)
+Init == /\ Rec \in ToSet(Obs)
+        /\ verdict = VerdictFor(Rec, ModelOf(Rec))
+        /\ PrintT(<<"@@PRINT@@ verdict", Rec.idx, verdict.verdict>>)
+Next == UNCHANGED <<Rec, verdict>>
 
 Inv_SdkGenerated == Rec.sdk
 \* never any other exception than the SDK's own de-serialization error -- whatever the verdict
